@@ -10,6 +10,15 @@ use std::sync::Mutex;
 
 static NEXT_WORKER: AtomicUsize = AtomicUsize::new(0);
 static RNG_COUNTER: AtomicU64 = AtomicU64::new(0);
+// true: every generator instance restarts the stream, i.e. all workers draw identical random
+// bytes (the environment answer "two draws collide"); false: one shared stream
+static RNG_COLLIDING: core::sync::atomic::AtomicBool = core::sync::atomic::AtomicBool::new(false);
+
+/// Selects whether all workers draw the same random bytes (`true`) or consecutive parts of one
+/// deterministic stream (`false`). Called by the harness before an exploration.
+pub fn set_rng_colliding(colliding: bool) {
+    RNG_COLLIDING.store(colliding, Ordering::SeqCst);
+}
 static DELIVERIES: Mutex<Vec<usize>> = Mutex::new(Vec::new());
 
 shuttle::thread_local! {
@@ -103,6 +112,14 @@ impl rand::RngCore for OsRng {
     }
 
     fn fill_bytes(&mut self, dest: &mut [u8]) {
+        if RNG_COLLIDING.load(Ordering::SeqCst) {
+            for (i, chunk) in dest.chunks_mut(8).enumerate() {
+                let v = (0x9e3779b97f4a7c15u64.wrapping_mul(i as u64 + 1) ^ 0x5851f42d4c957f2d)
+                    .to_le_bytes();
+                chunk.copy_from_slice(&v[..chunk.len()]);
+            }
+            return;
+        }
         for chunk in dest.chunks_mut(8) {
             let v = self.next_u64().to_le_bytes();
             chunk.copy_from_slice(&v[..chunk.len()]);
